@@ -107,6 +107,62 @@ def stepOld (sm : Nat → Option (Smoother K)) (nE : Nat) (s : Cached K) : Op K 
 def runOps (sm : Nat → Option (Smoother K)) (nE : Nat) (s : Cached K) (ops : List (Op K)) : Cached K :=
   ops.foldl (step sm nE) s
 
+/-! ### several live results: every operation that derives a result from others or mutates one
+
+  `*`, reflected `*`, `/`, `mul_array`, `+`, `-`, `transform` and a copy through `as_dict`/`from_npz` all build the
+  new object with the class constructor, i.e. WITHOUT a memoised `dataSmooth`; `add` mutates in place and drops
+  the memoised value; reading `dataSmooth` (also through `max`, `_norm`, `_maxval`, `_normder`, `savetxt`)
+  memoises it.  Each object carries its own smoothers (a loaded copy has void smoothers). -/
+
+structure Obj (K : Type) where
+  sm : Nat → Option (Smoother K)
+  nE : Nat
+  data : Arr K
+  cache : Option (Arr K)
+
+/-- what `obj.dataSmooth` returns -/
+def Obj.observe (o : Obj K) : Arr K :=
+  match o.cache with
+  | some c => c
+  | none => dataSmooth o.sm o.nE o.data
+
+/-- what a constructor call receives -/
+structure Fresh (K : Type) where
+  sm : Nat → Option (Smoother K)
+  nE : Nat
+  data : Arr K
+
+inductive HOp (K : Type)
+  | read (i : Nat)                                   -- obj_i.dataSmooth / .max / ._norm …
+  | addIn (i : Nat) (B : List (Obj K) → Arr K)       -- obj_i.add(other): in place
+  | new (mk : List (Obj K) → Fresh K)                -- any derived result, built by the constructor
+
+def updAt {α : Type} : List α → Nat → (α → α) → List α
+  | [], _, _ => []
+  | a :: l, 0, f => f a :: l
+  | a :: l, i + 1, f => a :: updAt l i f
+
+def hstep (h : List (Obj K)) : HOp K → List (Obj K)
+  | .read i => updAt h i (fun o => { o with cache := some o.observe })
+  | .addIn i B => updAt h i (fun o => { o with data := fun x => o.data x + B h x, cache := none })
+  | .new mk => h ++ [{ sm := (mk h).sm, nE := (mk h).nE, data := (mk h).data, cache := none }]
+
+def hrun (h : List (Obj K)) (ops : List (HOp K)) : List (Obj K) := ops.foldl hstep h
+
+/-- the derived results of the code as constructor arguments -/
+def mulScalar (o : Obj K) (c : K) : Fresh K := ⟨o.sm, o.nE, fun x => o.data x * c⟩
+/-- `mul_array(w, axes)`: `w` is given already broadcast to the shape of the data -/
+def mulArr (o : Obj K) (w : Arr K) : Fresh K := ⟨o.sm, o.nE, fun x => o.data x * w x⟩
+def addObj (o p : Obj K) : Fresh K := ⟨o.sm, o.nE, fun x => o.data x + p.data x⟩
+/-- `EnergyResult.from_npz(as_dict)`: same data, smoothers are not stored -/
+def loadedCopy (o : Obj K) : Fresh K := ⟨fun _ => none, o.nE, o.data⟩
+
+/-- the SEEDED 'avoid re-smoothing' shortcut: the product inherits `parent.dataSmooth * factor` when the parent
+    has a memoised value -/
+def mulArrPrefilled (o : Obj K) (w : Arr K) : Obj K :=
+  { sm := o.sm, nE := o.nE, data := fun x => o.data x * w x,
+    cache := match o.cache with | some c => some (fun x => c x * w x) | none => none }
+
 end
 
 /-! ### construction (`AbstractSmoother.__init__`, `get_smoother`) -/
@@ -212,6 +268,44 @@ def handle : List String → String
       let sm := fun i => (sl.getD i none)
       showRats (listOfArr shape (observe sm nE (ops.foldl (stepOld sm nE) ⟨arrOfList shape data, none⟩)))
     | _, _, _, _, _ => "bad-op"
+  -- heap <shape> <flat data> <ops ';'-separated> <nE> k0 smt0 ... : observe of every live object, '|' separated
+  --   r<i>  read;  a<i>:<rats> in-place add of an array;  A<i>:<j> in-place add of object j;  m<i>:<c> new = obj_i * c
+  --   w<i>:<rats> new = obj_i * (array broadcast to the data shape);  p<i>:<j> new = i + j;  s<i>:<j> new = i - j
+  --   c<i> new = copy through as_dict / from_npz (void smoothers)
+  | "heap" :: sh :: d :: ops :: ne :: slots =>
+    match parseNats? sh, parseRats? d, parseNat? ne with
+    | some shape, some data, some nE =>
+      match parseSlots shape 0 slots with
+      | none => "bad-op"
+      | some sl =>
+        let sm := fun i => (sl.getD i none)
+        let getO (h : List (Obj Rat)) (i : Nat) : Obj Rat := h.getD i ⟨sm, nE, fun _ => 0, none⟩
+        let parseOp (o : String) : Option (HOp Rat) :=
+          let tag : String := String.ofList (o.toList.take 1)
+          match (String.ofList (o.toList.drop 1)).splitOn ":" with
+          | [i] =>
+            match parseNat? i with
+            | some i => if tag = "r" then some (.read i) else if tag = "c" then some (.new (fun h => loadedCopy (getO h i))) else none
+            | none => none
+          | [i, x] =>
+            match parseNat? i with
+            | none => none
+            | some i =>
+              if tag = "a" then (parseRats? x).map (fun b => HOp.addIn i (fun _ => arrOfList shape b))
+              else if tag = "A" then (parseNat? x).map (fun j => HOp.addIn i (fun h => (getO h j).data))
+              else if tag = "m" then (parseRat? x).map (fun c => HOp.new (fun h => mulScalar (getO h i) c))
+              else if tag = "w" then (parseRats? x).map (fun w => HOp.new (fun h => mulArr (getO h i) (arrOfList shape w)))
+              else if tag = "p" then (parseNat? x).map (fun j => HOp.new (fun h => addObj (getO h i) (getO h j)))
+              else if tag = "s" then (parseNat? x).map (fun j => HOp.new (fun h =>
+                addObj (getO h i) ⟨sm, nE, fun t => (getO h j).data t * (-1), none⟩))
+              else none
+          | _ => none
+        match (ops.splitOn ";").mapM parseOp with
+        | none => "bad-op"
+        | some ops =>
+          let h := hrun [⟨sm, nE, arrOfList shape data, none⟩] ops
+          "|".intercalate (h.map (fun o => showRats (listOfArr shape o.observe)))
+    | _, _, _ => "bad-op"
   | ["ne1", m, s, d] =>
     match parseRat? m, parseRat? s, parseRat? d with
     | some m, some s, some d => toString (ne1 m s d)
